@@ -55,6 +55,42 @@ def ladder_defaults(F):
     return out
 
 
+def _group_value_premise(F):
+    """hash_agg::extract_group_value keeps a Null fall-through, but no caller can turn it into an answer:
+    (1) its callers are extract_group_key (GROUP BY keys) and update_accumulator (aggregate inputs) only;
+    (2) GROUP BY keys of an unsupported type are refused when the key column is rebuilt: build_group_array's type dispatch ends in Err;
+    (3) every array update_accumulator receives comes from widen_distinct_input, whose own type dispatch ends in Err
+        (value-keyed aggregates COUNT(DISTINCT)/SUM(DISTINCT)/APPROX_DISTINCT are cast to a handled type or refused).
+    ANY_VALUE/ARBITRARY also store the extracted value; for an unhandled type the output builder refuses it
+    ("ANY_VALUE not implemented for type ..", reproduced in fixes/Km/verdict.json) - reviewed, not machine-checked."""
+    HA = "physical::operators::hash_agg"
+    egv = HA + "::extract_group_value"
+    callers = {F.bodies[c.fn.path].get("root") or c.fn.path for c in F.callers_of(egv)}
+    if not callers <= {HA + "::extract_group_key", HA + "::update_accumulator"}:
+        return False, f"new callers {sorted(callers)}"
+    def ends_in_err(path, scrut_suffix):
+        g = F.fn(path)
+        ms = [m for m in g.raw["matches"] if m["kind"] == "match" and m["scrut"].endswith(scrut_suffix) and len(m["arms"]) >= 4]
+        return bool(ms) and all(m["arms"][-1]["cls"] in ("Err", "ret:Err") for m in ms)
+    if not ends_in_err(HA + "::build_group_array", "DataType"):
+        return False, "build_group_array no longer refuses unsupported key types"
+    if HA + "::widen_distinct_input" not in F.bodies or not ends_in_err(HA + "::widen_distinct_input", "DataType"):
+        return False, "widen_distinct_input missing or without a refusing fall-through"
+    for c in F.callers_of(HA + "::update_accumulator"):
+        g = c.fn
+        fed = derives_from(g, [c.args[2]], lambda k, x: (k == "call" and x.name == HA + "::widen_distinct_input" and x) or None)
+        if not fed:
+            # the widening may sit in a closure mapped over the aggregates: accept when the enclosing function's family calls it
+            root = F.bodies[g.path].get("root") or g.path
+            if not any(x.name == HA + "::widen_distinct_input" for x in F.fam_calls(root)):
+                return False, f"{root} feeds update_accumulator without widen_distinct_input"
+    return True, "callers={extract_group_key, update_accumulator}; build_group_array and widen_distinct_input refuse other types; every update_accumulator input is widened"
+
+
+# one named symbol per entry, each with a machine-checked premise (a failed premise is reported as a violation)
+REVIEWED = {"physical::operators::hash_agg::extract_group_value": _group_value_premise}
+
+
 def run(F, R):
     R.rule("C01.R1", "K-ERR + K3", "sql(): every Result on the spine is propagated; partitions 0..output_partitions() are all driven")
     R.rule("C01.R2", "K4 no silent default", "downcast ladders producing data do not fall through to a fabricated constant")
@@ -97,6 +133,10 @@ def run(F, R):
         root = F.bodies[g.path].get("root") or g.path
         seen.setdefault((root, val), (g, bb, ndc))
     for (root, val), (g, bb, ndc) in sorted(seen.items()):
+        if root in REVIEWED:
+            ok, why = REVIEWED[root](F)
+            R.check(ok, "C01.R2", f"{root}:default-unreachable-with-wrong-answer", f"reviewed exception no longer holds ({why}): the fabricated {val.replace('adt:', '')} can reach an answer again", g.loc(bb), dict(premise=why))
+            continue
         R.bad("C01.R2", f"{root}:default={val.replace('adt:', '')}", f"a {ndc}-way Arrow-type dispatch falls through to the fabricated value {val.replace('adt:', '')} for a type it does not handle, instead of failing: the statement returns a wrong answer for that column type", g.loc(bb), dict(downcasts=ndc))
     R.ok("C01.R2", "ladders-examined", dict(defaults=len(seen)))
 
